@@ -806,6 +806,40 @@ def fam_builder_scripts(rng, n, prefix):
     return out
 
 
+# ---------- presentation earlier than decode on every frame, with audio (C09/C03/C16) ----------
+def fam_negative_cts_av(rng, n, prefix):
+    """explicit-dts video whose composition offsets are all <= 0 (some negative), audio starting at the
+    first video decode time: dropping the offsets shifts the whole video against the audio"""
+    out = []
+    for i in range(n):
+        cfg = rand_cfg(rng, audio=rng.choice(["aac-lc", "opus", "none"]), dims=(640, 480), meta=0)
+        codec = cfg["codec"]
+        c = Case("%s%d" % (prefix, i), "mux")
+        emit_cfg(c, cfg, rng)
+        step = rng.choice([3000, 3003, 1500])
+        lead = rng.choice([1, 2, 1, 1]) * step
+        nv = rng.range(2, 6)
+        mode = rng.below(3)       # 0: constant negative offset, 1: only the first, 2: only the last
+        ops = []
+        for k in range(nv):
+            d = lead + k * step
+            off = {0: -lead, 1: (-lead if k == 0 else 0), 2: (-step if k == nv - 1 else 0)}[mode]
+            if mode == 2 and nv - 1 == k and k > 0:
+                off = -rng.choice([1, step // 2])
+            ops.append((d, 0, ["wvd", fb((d + off) / 90000.0), fb(d / 90000.0),
+                               hx(video_key(rng, codec) if k == 0 else video_delta(rng, codec)), 1 if k == 0 else 0]))
+        if has_audio(cfg):
+            for k in range(rng.range(1, 5)):
+                t = lead + k * rng.choice([1920, 1800, 960])
+                ops.append((t, 1, ["wa", fb(t / 90000.0), hx(audio_frame(rng, cfg["audio"]))]))
+        ops.sort(key=lambda x: (x[0], x[1]))
+        for _, _, o in ops:
+            c.o(*o)
+        c.o("fin", 0)
+        out.append(c)
+    return out
+
+
 # ---------- composition-offset boundaries (C16/C03/C04): pts - dts around +-2^31 ticks ----------
 def fam_cts_bounds(rng, n, prefix):
     out = []
